@@ -281,3 +281,36 @@ fn c12_display_call_fault() {
     kani::cover!(r.is_err() && op == 7);
     kani::cover!(r.is_err() && op == 2);
 }
+
+// ---------------------------------------------------------------------------------------------- C02 (draw_iter)
+/// one pixel with arbitrary i32 coordinates through draw_iter (the failing magnitudes - x >= width, >= 65536, negative -
+/// are single-pixel phenomena): out of bounds => nothing is sent; in bounds => exactly one 1x1 window at the right cell
+fn c02_draw_iter_one_pixel<const W: u16, const H: u16>() {
+    use embedded_graphics_core::draw_target::DrawTarget;
+    use embedded_graphics_core::geometry::Point;
+    use embedded_graphics_core::Pixel;
+    let clock = Clock::new();
+    let mut d = any_display::<W, H>(&clock);
+    let madctl = oracle_madctl(d.options.color_order, d.options.orientation, d.options.refresh_order);
+    let (lw, lh) = oracle_logical_size(d.options.orientation, d.options.display_size.0, d.options.display_size.1);
+    let (x, y): (i32, i32) = (kani::any(), kani::any());
+    let r = d.draw_iter(core::iter::once(Pixel(Point::new(x, y), any_color())));
+    assert!(r.is_ok(), "C02: draw_iter returned an error on a fault-free bus");
+    let inb = x >= 0 && y >= 0 && (x as i64) < lw as i64 && (y as i64) < lh as i64;
+    if inb {
+        assert!(d.di.ncmd == 3 && d.di.px_calls == 1 && d.di.px_count == 1, "C08: one window, one pixel");
+        let (sc, sr, ec, er) = window_at(&d, 0);
+        assert!(sc == ec && sr == er, "C08: 1x1 window");
+        assert_lands(&d, madctl, sc, sr, x as u16, y as u16);
+    } else {
+        assert!(d.di.ncmd == 0 && d.di.px_calls == 0, "C02: an out-of-bounds pixel was not discarded");
+    }
+    kani::cover!(inb);
+    kani::cover!(!inb && x >= 0 && y >= 0);
+}
+#[kani::proof]
+#[kani::unwind(4)]
+fn c02_draw_iter_one_pixel_240x320() { c02_draw_iter_one_pixel::<240, 320>() }
+#[kani::proof]
+#[kani::unwind(4)]
+fn c02_draw_iter_one_pixel_max() { c02_draw_iter_one_pixel::<65535, 65535>() }
